@@ -1,5 +1,6 @@
 """Generic driver of the trace-validation checks (C01, C02, C03, C05, C09, C10, C11, C14, C17, C19)."""
 import json
+import os
 import random
 
 from . import campaign as C, pool
@@ -171,3 +172,23 @@ def standard_items(run_seed, tier, n_gen_quick, n_gen_thorough, bench_quick=15, 
     items += C.generated(run_seed, n_gen_quick if quick else n_gen_thorough, profile=profile,
                          maxdeg=maxdeg if quick else maxdeg + 1, ngoals=ngoals if quick else ngoals + 3)
     return items
+
+
+def replay_analysis(pid, path, *, want, builders, N, variants=None, job_extra=None, timeout=300, key_fn=None, post=None):
+    """re-run the single program of a replay file through the same pipeline (source semantics: Polar's parse)"""
+    d = json.load(open(path))
+    det = d["detail"]
+    text = det.get("program") or det.get("text")
+    if not text:
+        print("replay file has no program text")
+        return 2
+    it = {"id": "replay", "text": text, "T": None, "goals": None, "points": [det["point"]] if isinstance(det.get("point"), dict) else "auto",
+          "origin": path, "meta": {}}
+    suffix = det.get("variant") or ""
+    vs = [v for v in (variants or [("", {})]) if v[0] == suffix] or [("", {})]
+    os.environ["VERIF_EVIDENCE_DIR"] = os.path.join("/tmp", "verif-replay-evidence")
+    from . import report
+    report.EVID = os.environ["VERIF_EVIDENCE_DIR"]
+    report.REPLAY = os.path.join(report.EVID, "replay")
+    return analysis_check(pid, "quick", 0, items=[it], want=want, builders=builders, N=N, variants=vs, job_extra=job_extra,
+                          timeout=timeout, key_fn=key_fn)
